@@ -210,3 +210,59 @@ def stale_state_histories(rng, count):
             if rng.random() < 0.3:
                 ops += [(6, areas[0][0], 2, rng.randrange(65536), rng.randrange(65536))] + probe()
         yield tab.line(ops)
+
+def reinit_histories(rng, count):
+    """the SAME table object is initialised, its description edited by the caller (a register moved: op 11) and initialised again -
+    successfully (the register now lives elsewhere, possibly in another area) or not (order / overlap / hole) - and every register,
+    every window and the blocks are probed after each initialisation: nothing of the earlier initialisation may survive"""
+    for _ in range(count):
+        be = rng.randrange(2)
+        # three adjacent or nearly adjacent areas, the middle one possibly empty
+        sizes = [rng.choice([3, 4, 6]) for _ in range(3)]
+        bases = [16]; bases.append(bases[0] + sizes[0] + rng.choice([0, 0, 2])); bases.append(bases[1] + sizes[1] + rng.choice([0, 0, 1]))
+        areas = [(bases[i], sizes[i], 3, rng.choice([MEM, MEM, CUSTOM])) for i in range(3)]
+        entries = []
+        for i in (0, 2) if rng.random() < 0.5 else (0, 1, 2):
+            pos = bases[i]
+            for _k in range(rng.choice([1, 2])):
+                t = rng.choice([0, 0, 1, 3])
+                if pos + TSIZE[t] > bases[i] + sizes[i]:
+                    break
+                ck = rand_check(rng, t, rng.choice([0, 2, 3, 4]))
+                entries.append((t, acceptable_default(rng, t, ck), pos, ck[0], ck[1], ck[2]))
+                pos += TSIZE[t] + rng.choice([0, 1])
+        if len(entries) < 2:
+            continue
+        tab = Table(be, areas, entries, [rng.randrange(65536) for _ in range(sum(sizes))])
+        ne = len(entries); lo, hi = bases[0] - 1, bases[2] + sizes[2] + 1
+        def probe():
+            o = []
+            for j in range(ne):
+                o += [(3, j), (1, j, entries[j][0], rng.choice([0, 1, 5])), (3, j)]
+            for _w in range(4):
+                a = rng.randrange(lo, hi); n = rng.randrange(1, hi - a + 1)
+                o += [(9, a, n), (7, a, rng.randrange(1, 5))]
+            o += [(9, bases[0], hi - bases[0]), (9, bases[1], sizes[1] + 2), (6, bases[0], 1, 1), (8,), (4, 0, entries[0][0], 1)]
+            return o
+        ops = [(0,)] + probe()
+        addr = [e[2] for e in entries]
+        for _r in range(rng.randrange(1, 4)):
+            k = rng.randrange(ne)
+            choice = rng.randrange(5)
+            if choice == 0 and k + 1 < ne:      # onto the next register: overlap / order violation
+                new = addr[k + 1]
+            elif choice == 1 and k > 0:         # below its predecessor: order violation
+                new = max(0, addr[k - 1] - rng.choice([0, 1]))
+            elif choice == 2:                   # into a hole / outside every area
+                new = rng.choice([bases[2] + sizes[2] + 3, 0, bases[0] + sizes[0]])
+            elif choice == 3:                   # the last register of an area moves to the start of the next area (or back)
+                ai = max(i for i in range(3) if bases[i] <= addr[k]) if any(bases[i] <= addr[k] for i in range(3)) else 0
+                new = bases[min(ai + 1, 2)] if rng.random() < 0.7 else bases[max(ai - 1, 0)] + sizes[max(ai - 1, 0)] - TSIZE[entries[k][0]]
+            else:
+                new = addr[k] + rng.choice([-1, 1, 2])
+            new = max(0, new) & 0xffff
+            addr[k] = new
+            ops += [(11, k, new), (0,)] + probe()
+            if rng.random() < 0.3:
+                ops += [(0,)] + probe()
+        yield tab.line(ops)
